@@ -221,15 +221,21 @@ def check_gdist1g(prog, rep, c):
         rep.unrec("R2-sequential", construct, "run loop not `for st, sp in zip(start, stop)`")
         return
     a, b = lp.target.elts[0].id, lp.target.elts[1].id
-    if dump(it.args[0]) != S or dump(it.args[1]) != (stopn or "?"):
+    lbody = list(lp.body)
+    if dump(it.args[0]) == S and dump(it.args[1]) == C and lbody and isinstance(lbody[0], ast.Assign) and isinstance(lbody[0].targets[0], ast.Name) \
+            and isinstance(lbody[0].value, ast.BinOp) and isinstance(lbody[0].value.op, ast.Add) and {dump(lbody[0].value.left), dump(lbody[0].value.right)} == {a, b}:
+        # for st, cnt in zip(start, counts): sp = st + cnt ...   is the same iteration with the stop computed inside
+        b = lbody[0].targets[0].id
+        lbody = lbody[1:]
+    elif dump(it.args[0]) != S or dump(it.args[1]) != (stopn or "?"):
         rep.violate("R2-sequential", construct, "runs are iterated as zip(%s, %s), not zip(first index, first index + count)" % (dump(it.args[0]), dump(it.args[1])),
                     where(f, lp), "zip(%s, %s + %s)" % (S, S, C), dump(it))
         return
     ret = [s for s in body_nodoc(f.node) if isinstance(s, ast.Return)]
     out = ret[0].value.id if ret and isinstance(ret[0].value, ast.Name) else None
-    stores = [s for s in lp.body if isinstance(s, ast.Assign) and isinstance(s.targets[0], ast.Subscript)
+    stores = [s for s in lbody if isinstance(s, ast.Assign) and isinstance(s.targets[0], ast.Subscript)
               and isinstance(s.targets[0].value, ast.Name) and s.targets[0].value.id == out]
-    if out is None or len(stores) != len(lp.body):
+    if out is None or len(stores) != len(lbody):
         rep.unrec("R2-sequential", construct, "run loop body is not a list of stores into the result")
         return
     vn = VN(prog, f)
